@@ -1,1 +1,577 @@
-// lemmas of unit c22_lineindex
+// lemmas of unit c22_lineindex (all proved; no assume/admit/external_body)
+// ---------------------------------------------------------------------------------------------
+// UTF-8 structure lemmas (vstd::utf8 gives the definitions; these are proved by induction on them)
+// ---------------------------------------------------------------------------------------------
+
+/// bytewise characterisation of a char boundary (this is how core::str::is_char_boundary is implemented)
+pub open spec fn cb(b: Seq<u8>, i: int) -> bool {
+    0 <= i <= b.len() && (i == b.len() || !is_continuation_byte(b[i]))
+}
+
+/// shape of the first scalar of a non-empty valid sequence
+pub proof fn lemma_first_scalar_shape(b: Seq<u8>)
+    requires valid_utf8(b), b.len() > 0,
+    ensures
+        valid_first_scalar(b),
+        1 <= length_of_first_scalar(b) <= 4,
+        length_of_first_scalar(b) <= b.len(),
+        !is_continuation_byte(b[0]),
+        forall|i: int| 1 <= i < length_of_first_scalar(b) ==> is_continuation_byte(#[trigger] b[i]),
+        b[0] < 0x80u8 <==> length_of_first_scalar(b) == 1,
+        valid_utf8(pop_first_scalar(b)),
+        pop_first_scalar(b) == b.subrange(length_of_first_scalar(b), b.len() as int),
+        pop_first_scalar(b).len() == b.len() - length_of_first_scalar(b),
+{
+}
+
+/// (L1+L2 generalised) in valid UTF-8, `is_char_boundary` is exactly "end of text or not a continuation byte"
+pub proof fn lemma_char_boundary_iff(b: Seq<u8>, i: int)
+    requires valid_utf8(b),
+    ensures is_char_boundary(b, i) <==> cb(b, i),
+    decreases b.len(),
+{
+    if i == 0 {
+        if b.len() > 0 { lemma_first_scalar_shape(b); }
+    } else if i < 0 || b.len() < i {
+    } else {
+        lemma_first_scalar_shape(b);
+        let l = length_of_first_scalar(b);
+        let p = pop_first_scalar(b);
+        lemma_char_boundary_iff(p, i - l);
+        if i < l {
+            assert(is_continuation_byte(b[i]));
+        } else if i < b.len() {
+            assert(p[i - l] == b[i]);
+        }
+    }
+}
+
+/// all boundaries at once
+pub proof fn lemma_char_boundary_all(b: Seq<u8>)
+    requires valid_utf8(b),
+    ensures forall|i: int| #[trigger] is_char_boundary(b, i) <==> cb(b, i),
+{
+    assert forall|i: int| #[trigger] is_char_boundary(b, i) <==> cb(b, i) by { lemma_char_boundary_iff(b, i); }
+}
+
+pub proof fn lemma_valid_suffix(b: Seq<u8>, i: int)
+    requires valid_utf8(b), is_char_boundary(b, i),
+    ensures valid_utf8(b.subrange(i, b.len() as int)),
+    decreases b.len(),
+{
+    if i == 0 {
+        assert(b.subrange(0, b.len() as int) =~= b);
+    } else {
+        lemma_first_scalar_shape(b);
+        let l = length_of_first_scalar(b);
+        let p = pop_first_scalar(b);
+        lemma_valid_suffix(p, i - l);
+        lemma_char_boundary_iff(p, i - l);
+        assert(p.subrange(i - l, p.len() as int) =~= b.subrange(i, b.len() as int));
+    }
+}
+
+pub proof fn lemma_valid_prefix(b: Seq<u8>, j: int)
+    requires valid_utf8(b), is_char_boundary(b, j),
+    ensures valid_utf8(b.subrange(0, j)),
+    decreases b.len(),
+{
+    if j == 0 {
+        assert(b.subrange(0, 0).len() == 0);
+    } else {
+        lemma_first_scalar_shape(b);
+        let l = length_of_first_scalar(b);
+        let p = pop_first_scalar(b);
+        lemma_char_boundary_iff(p, j - l);
+        lemma_valid_prefix(p, j - l);
+        let q = b.subrange(0, j);
+        assert(q.len() == j && j >= l);
+        assert(forall|k: int| 0 <= k < l ==> q[k] == b[k]);
+        assert(valid_leading_and_continuation_bytes_first_codepoint(q));
+        assert(length_of_first_codepoint(q) == l);
+        assert(decode_first_codepoint(q) == decode_first_codepoint(b));
+        assert(valid_first_scalar(q));
+        assert(pop_first_scalar(q) =~= p.subrange(0, j - l));
+    }
+}
+
+/// (L3) a range between two boundaries is valid UTF-8 and its boundaries are those of the whole text
+pub proof fn lemma_valid_subrange(b: Seq<u8>, i: int, j: int)
+    requires valid_utf8(b), is_char_boundary(b, i), is_char_boundary(b, j), i <= j,
+    ensures
+        0 <= i <= j <= b.len(),
+        valid_utf8(b.subrange(i, j)),
+        forall|k: int| i <= k <= j ==> (#[trigger] is_char_boundary(b.subrange(i, j), k - i) <==> is_char_boundary(b, k)),
+{
+    lemma_char_boundary_all(b);
+    lemma_valid_prefix(b, j);
+    let q = b.subrange(0, j);
+    lemma_char_boundary_all(q);
+    assert(cb(q, i));
+    lemma_valid_suffix(q, i);
+    assert(q.subrange(i, q.len() as int) =~= b.subrange(i, j));
+    let r = b.subrange(i, j);
+    lemma_char_boundary_all(r);
+    assert forall|k: int| i <= k <= j implies (#[trigger] is_char_boundary(r, k - i) <==> is_char_boundary(b, k)) by {
+        if k < j { assert(r[k - i] == b[k]); }
+    }
+}
+
+/// (L5) decoding splits at boundaries
+pub proof fn lemma_decode_split3(b: Seq<u8>, i: int, j: int, k: int)
+    requires valid_utf8(b), is_char_boundary(b, i), is_char_boundary(b, j), is_char_boundary(b, k), i <= j <= k,
+    ensures decode_utf8(b.subrange(i, k)) =~= decode_utf8(b.subrange(i, j)) + decode_utf8(b.subrange(j, k)),
+{
+    lemma_valid_subrange(b, i, k);
+    let r = b.subrange(i, k);
+    assert(is_char_boundary(r, j - i));
+    decode_utf8_split(r, j - i);
+    assert(r.subrange(0, j - i) =~= b.subrange(i, j));
+    assert(r.subrange(j - i, r.len() as int) =~= b.subrange(j, k));
+}
+
+pub proof fn lemma_decode_nonempty(s: Seq<u8>)
+    requires valid_utf8(s), s.len() > 0,
+    ensures decode_utf8(s).len() > 0,
+{
+}
+
+/// (L4) an all-ASCII valid sequence decodes to as many chars as it has bytes
+pub proof fn lemma_ascii_decode_len(s: Seq<u8>)
+    requires valid_utf8(s), forall|i: int| 0 <= i < s.len() ==> s[i] < 0x80u8,
+    ensures decode_utf8(s).len() == s.len(),
+    decreases s.len(),
+{
+    if s.len() > 0 {
+        lemma_first_scalar_shape(s);
+        let p = pop_first_scalar(s);
+        assert(forall|i: int| 0 <= i < p.len() ==> p[i] == s[i + 1]);
+        lemma_ascii_decode_len(p);
+    }
+}
+
+// ---------------------------------------------------------------------------------------------
+// cols
+// ---------------------------------------------------------------------------------------------
+pub proof fn lemma_cols_add(a: Seq<char>, b: Seq<char>)
+    ensures cols(a + b) == cols(a) + cols(b),
+    decreases b.len(),
+{
+    if b.len() == 0 {
+        assert(a + b =~= a);
+    } else {
+        assert((a + b).drop_last() =~= a + b.drop_last());
+        lemma_cols_add(a, b.drop_last());
+    }
+}
+
+/// the only place where `cw(c) == 1` for *every* char is used (the code counts scalar values)
+pub proof fn lemma_cols_len(s: Seq<char>)
+    ensures cols(s) == s.len(),
+    decreases s.len(),
+{
+    if s.len() > 0 { lemma_cols_len(s.drop_last()); }
+}
+
+/// needs only `cw(c) >= 1`
+pub proof fn lemma_cols_pos(s: Seq<char>)
+    requires s.len() > 0,
+    ensures cols(s) > 0,
+{
+}
+
+/// the column is monotone, and strictly monotone, in the boundary offset
+pub proof fn lemma_cols_monotonic(b: Seq<u8>, ls: int, o1: int, o2: int)
+    requires valid_utf8(b), is_char_boundary(b, ls), is_char_boundary(b, o1), is_char_boundary(b, o2), ls <= o1 <= o2,
+    ensures
+        cols(decode_utf8(b.subrange(ls, o1))) <= cols(decode_utf8(b.subrange(ls, o2))),
+        o1 < o2 ==> cols(decode_utf8(b.subrange(ls, o1))) < cols(decode_utf8(b.subrange(ls, o2))),
+{
+    lemma_decode_split3(b, ls, o1, o2);
+    lemma_cols_add(decode_utf8(b.subrange(ls, o1)), decode_utf8(b.subrange(o1, o2)));
+    if o1 < o2 {
+        lemma_valid_subrange(b, o1, o2);
+        lemma_decode_nonempty(b.subrange(o1, o2));
+        lemma_cols_pos(decode_utf8(b.subrange(o1, o2)));
+    }
+}
+
+/// a `str`'s chars are the decoding of its bytes
+pub proof fn lemma_str_view_decode(s: &str)
+    ensures valid_utf8(s.spec_bytes()), s@ == decode_utf8(s.spec_bytes()), s.spec_bytes() == encode_utf8(s@),
+{
+    encode_utf8_valid_utf8(s@);
+    encode_utf8_decode_utf8(s@);
+}
+
+/// byte length of the encoding of a prefix of `s`: grows by the encoded char, never exceeds the whole
+pub proof fn lemma_encode_prefix(s: Seq<char>, k: int)
+    requires 0 <= k <= s.len(),
+    ensures
+        encode_utf8(s.subrange(0, k)).len() <= encode_utf8(s).len(),
+        k == s.len() ==> encode_utf8(s.subrange(0, k)).len() == encode_utf8(s).len(),
+        k < s.len() ==> encode_utf8(s.subrange(0, k)).len() < encode_utf8(s).len(),
+        k < s.len() ==> encode_utf8(s.subrange(0, k + 1)).len() == encode_utf8(s.subrange(0, k)).len() + encode_scalar(s[k] as u32).len(),
+        encode_utf8(s) =~= encode_utf8(s.subrange(0, k)) + encode_utf8(s.subrange(k, s.len() as int)),
+{
+    assert(s =~= s.subrange(0, k) + s.subrange(k, s.len() as int));
+    encode_utf8_concat(s.subrange(0, k), s.subrange(k, s.len() as int));
+    assert(s.subrange(0, s.len() as int) =~= s);
+    if k < s.len() {
+        assert(s.subrange(0, k + 1) =~= s.subrange(0, k).push(s[k]));
+        encode_utf8_push(s.subrange(0, k), s[k]);
+        lemma_encode_utf8_len_strictly_monotonic(s, k, s.len() as int);
+    }
+}
+
+/// (L2) in valid UTF-8 an ASCII byte sits on a char boundary, and so does the position after it
+pub proof fn lemma_ascii_byte_boundaries(b: Seq<u8>, p: int)
+    requires valid_utf8(b), 0 <= p < b.len(), b[p] < 0x80u8,
+    ensures is_char_boundary(b, p), is_char_boundary(b, p + 1),
+    decreases b.len(),
+{
+    lemma_first_scalar_shape(b);
+    let l = length_of_first_scalar(b);
+    let q = pop_first_scalar(b);
+    if p == 0 {
+        assert(l == 1);
+        assert(is_char_boundary(q, 0));
+    } else if p < l {
+        assert(is_continuation_byte(b[p]));
+    } else {
+        assert(q[p - l] == b[p]);
+        lemma_ascii_byte_boundaries(q, p - l);
+    }
+}
+
+// ---------------------------------------------------------------------------------------------
+// LineIndex-level lemmas
+// ---------------------------------------------------------------------------------------------
+
+/// loop invariant of `parse` after the first `upto` bytes; `cur` is the ASCII flag of the line in progress
+pub open spec fn parse_inv(offs: Seq<u32>, asc: Seq<bool>, cur: bool, b: Seq<u8>, upto: int) -> bool {
+    &&& offs.len() >= 1
+    &&& offs[0] == 0
+    &&& forall|i: int, j: int| 0 <= i < j < offs.len() ==> offs[i] < offs[j]
+    &&& forall|i: int| 0 <= i < offs.len() ==> #[trigger] offs[i] <= upto
+    &&& forall|i: int| 0 <= i < offs.len() ==> is_line_start(b, #[trigger] offs[i] as int)
+    &&& forall|p: int| 0 <= p <= upto && is_line_start(b, p) ==> exists|i: int| 0 <= i < offs.len() && offs[i] == p
+    &&& asc.len() + 1 == offs.len()
+    &&& forall|i: int| 0 <= i < asc.len() ==> (#[trigger] asc[i] <==> all_ascii(b, offs[i] as int, offs[i + 1] as int))
+    &&& cur <==> all_ascii(b, offs.last() as int, upto)
+}
+
+pub proof fn lemma_parse_init(b: Seq<u8>)
+    ensures parse_inv(seq![0u32], Seq::<bool>::empty(), true, b, 0),
+{
+    let offs = seq![0u32];
+    assert(offs[0] == 0);
+    assert forall|p: int| 0 <= p <= 0 && is_line_start(b, p) implies exists|i: int| 0 <= i < offs.len() && offs[i] == p by {
+        assert(offs[0] == p);
+    }
+}
+
+pub proof fn lemma_parse_step(offs: Seq<u32>, asc: Seq<bool>, cur: bool, b: Seq<u8>, index: int)
+    requires parse_inv(offs, asc, cur, b, index), 0 <= index < b.len(), b.len() < 0xffff_ffff,
+    ensures
+        b[index] == 10u8 ==> parse_inv(offs.push((index + 1) as u32), asc.push(cur), true, b, index + 1),
+        b[index] != 10u8 ==> parse_inv(offs, asc, cur && b[index] < 0x80u8, b, index + 1),
+{
+    let n = offs.len() as int;
+    if b[index] == 10u8 {
+        let o2 = offs.push((index + 1) as u32);
+        let a2 = asc.push(cur);
+        assert(o2[n] == index + 1);
+        assert(forall|i: int| 0 <= i < n ==> o2[i] == offs[i]);
+        assert(is_line_start(b, index + 1));
+        assert forall|i: int, j: int| 0 <= i < j < o2.len() implies o2[i] < o2[j] by {
+            if j == n { assert(offs[i] <= index); }
+        }
+        assert forall|i: int| 0 <= i < o2.len() implies #[trigger] o2[i] <= index + 1 by {
+            if i < n { assert(offs[i] <= index); }
+        }
+        assert forall|i: int| 0 <= i < o2.len() implies is_line_start(b, #[trigger] o2[i] as int) by {
+            if i < n { assert(is_line_start(b, offs[i] as int)); }
+        }
+        assert forall|p: int| 0 <= p <= index + 1 && is_line_start(b, p) implies exists|i: int| 0 <= i < o2.len() && o2[i] == p by {
+            if p == index + 1 { assert(o2[n] == p); }
+            else {
+                let i0 = choose|i: int| 0 <= i < offs.len() && offs[i] == p;
+                assert(o2[i0] == p);
+            }
+        }
+        assert forall|i: int| 0 <= i < a2.len() implies (#[trigger] a2[i] <==> all_ascii(b, o2[i] as int, o2[i + 1] as int)) by {
+            if i < asc.len() {
+                assert(a2[i] == asc[i]);
+                assert(o2[i] == offs[i] && o2[i + 1] == offs[i + 1]);
+            } else {
+                assert(a2[i] == cur);
+                assert(o2[i] == offs.last() && o2[i + 1] == index + 1);
+                assert(all_ascii(b, offs.last() as int, index) ==> all_ascii(b, offs.last() as int, index + 1));
+                assert(all_ascii(b, offs.last() as int, index + 1) ==> all_ascii(b, offs.last() as int, index));
+            }
+        }
+        assert(o2.last() == index + 1);
+        assert(all_ascii(b, index + 1, index + 1));
+    } else {
+        assert(!is_line_start(b, index + 1));
+        assert forall|i: int| 0 <= i < offs.len() implies #[trigger] offs[i] <= index + 1 by {
+            assert(offs[i] <= index);
+        }
+        let s = offs.last() as int;
+        assert(offs[n - 1] <= index);
+        if cur && b[index] < 0x80u8 {
+            assert(all_ascii(b, s, index + 1));
+        }
+        if all_ascii(b, s, index + 1) {
+            assert(all_ascii(b, s, index));
+            assert(b[index] < 0x80u8);
+        }
+    }
+}
+
+pub proof fn lemma_parse_finish(offs: Seq<u32>, asc: Seq<bool>, cur: bool, b: Seq<u8>)
+    requires parse_inv(offs, asc, cur, b, b.len() as int), b.len() < 0xffff_ffff, valid_utf8(b),
+    ensures forall|li: &LineIndex| li.line_offsets@ == offs && li.line_only_ascii_vec@ == asc.push(cur) ==> #[trigger] wf(li, b),
+{
+    assert forall|li: &LineIndex| li.line_offsets@ == offs && li.line_only_ascii_vec@ == asc.push(cur) implies #[trigger] wf(li, b) by {
+        let a2 = asc.push(cur);
+        assert forall|i: int| 0 <= i < offs.len() implies #[trigger] is_line_start(b, offs[i] as int) by {}
+        assert forall|i: int| 0 <= i < offs.len() implies (#[trigger] a2[i] <==> all_ascii(b, offs[i] as int, line_end(li, b, i))) by {
+            if i < asc.len() { assert(a2[i] == asc[i]); } else { assert(a2[i] == cur); }
+        }
+    }
+}
+
+/// geometry of line `l` under the representation invariant
+pub proof fn lemma_line_facts(li: &LineIndex, b: Seq<u8>, l: int)
+    requires wf(li, b), 0 <= l < li.line_offsets@.len(),
+    ensures ({
+        let ls = li.line_offsets@[l] as int;
+        let ce = content_end(li, b, l);
+        let le = line_end(li, b, l);
+        &&& 0 <= ls <= ce <= le <= b.len()
+        &&& is_char_boundary(b, ls)
+        &&& is_char_boundary(b, ce)
+        &&& (l + 1 < li.line_offsets@.len() ==> le == ce + 1 && b[ce] == 10u8)
+        &&& (l + 1 >= li.line_offsets@.len() ==> le == ce && ce == b.len())
+        &&& cols(decode_utf8(b.subrange(ls, ls))) == 0
+        &&& offset_ok(li, b, l, 0, ls)
+    }),
+{
+    let offs = li.line_offsets@;
+    let ls = offs[l] as int;
+    assert(is_line_start(b, offs[l] as int));
+    if ls > 0 { lemma_ascii_byte_boundaries(b, ls - 1); }
+    if l + 1 < offs.len() {
+        assert(is_line_start(b, offs[l + 1] as int));
+        assert(offs[l] < offs[l + 1]);
+        lemma_ascii_byte_boundaries(b, offs[l + 1] as int - 1);
+    } else {
+        lemma_char_boundary_iff(b, b.len() as int);
+    }
+    assert(b.subrange(ls, ls).len() == 0);
+    assert(decode_utf8(b.subrange(ls, ls)).len() == 0);
+}
+
+/// (L4 at line level) on an all-ASCII line every offset up to the content end is a boundary and its
+/// column is the byte distance from the line start
+pub proof fn lemma_ascii_line_col(li: &LineIndex, b: Seq<u8>, l: int, o: int)
+    requires
+        wf(li, b), 0 <= l < li.line_offsets@.len(), li.line_only_ascii_vec@[l],
+        li.line_offsets@[l] <= o <= content_end(li, b, l),
+    ensures
+        is_char_boundary(b, o),
+        cols(decode_utf8(b.subrange(li.line_offsets@[l] as int, o))) == o - li.line_offsets@[l],
+{
+    let ls = li.line_offsets@[l] as int;
+    lemma_line_facts(li, b, l);
+    assert(all_ascii(b, ls, line_end(li, b, l)));
+    lemma_char_boundary_iff(b, o);
+    if o < b.len() { assert(b[o] < 0x80u8); }
+    lemma_valid_subrange(b, ls, o);
+    let s = b.subrange(ls, o);
+    assert forall|i: int| 0 <= i < s.len() implies s[i] < 0x80u8 by { assert(s[i] == b[ls + i]); }
+    lemma_ascii_decode_len(s);
+    lemma_cols_len(decode_utf8(s));
+}
+
+/// column of a boundary offset computed by counting the chars of the slice [line start, offset)
+pub proof fn lemma_col_by_count(li: &LineIndex, b: Seq<u8>, l: int, off: int, t: Seq<char>)
+    requires wf(li, b), 0 <= l < li.line_offsets@.len(), encode_utf8(t) == b.subrange(li.line_offsets@[l] as int, off),
+    ensures col_of(li, b, l, off) == t.len(),
+{
+    encode_utf8_decode_utf8(t);
+    lemma_cols_len(t);
+}
+
+/// result of the char-walk of `get_offset`: after consuming `k` chars of the line content `s`
+/// (`k == col`, or the content is exhausted) the byte offset satisfies `offset_ok`
+pub proof fn lemma_offset_from_chars(li: &LineIndex, b: Seq<u8>, l: int, col: int, s: Seq<char>, k: int, offset: int)
+    requires
+        wf(li, b), 0 <= l < li.line_offsets@.len(),
+        encode_utf8(s) == b.subrange(li.line_offsets@[l] as int, content_end(li, b, l)),
+        0 <= k <= s.len(), k <= col, k == col || k == s.len(),
+        offset == encode_utf8(s.subrange(0, k)).len(),
+    ensures
+        offset_ok(li, b, l, col, li.line_offsets@[l] + offset),
+{
+    let ls = li.line_offsets@[l] as int;
+    let ce = content_end(li, b, l);
+    lemma_line_facts(li, b, l);
+    lemma_encode_prefix(s, k);
+    let pre = s.subrange(0, k);
+    let suf = s.subrange(k, s.len() as int);
+    let o = ls + offset;
+    assert(encode_utf8(s).len() == ce - ls);
+    assert(b.subrange(ls, o) =~= encode_utf8(pre)) by {
+        assert(b.subrange(ls, o) =~= b.subrange(ls, ce).subrange(0, offset));
+    }
+    encode_utf8_decode_utf8(pre);
+    lemma_cols_len(pre);
+    lemma_char_boundary_iff(b, o);
+    if k < s.len() {
+        encode_utf8_valid_utf8(suf);
+        assert(suf.len() > 0);
+        lemma_encode_prefix(suf, 0);
+        assert(encode_utf8(suf.subrange(0, 0)).len() == 0) by { assert(suf.subrange(0, 0).len() == 0); }
+        lemma_first_scalar_shape(encode_utf8(suf));
+        assert(b[o] == b.subrange(ls, ce)[offset]);
+        assert(encode_utf8(s)[offset] == encode_utf8(suf)[0]);
+    }
+}
+
+/// the slice the repaired `get_offset` iterates over, as chars
+pub proof fn lemma_line_content_chars(li: &LineIndex, b: Seq<u8>, l: int)
+    requires wf(li, b), 0 <= l < li.line_offsets@.len(),
+    ensures
+        valid_utf8(b.subrange(li.line_offsets@[l] as int, content_end(li, b, l))),
+        encode_utf8(decode_utf8(b.subrange(li.line_offsets@[l] as int, content_end(li, b, l))))
+            == b.subrange(li.line_offsets@[l] as int, content_end(li, b, l)),
+        forall|t: Seq<char>| #[trigger] decode_utf8(encode_utf8(t)) == t,
+{
+    lemma_line_facts(li, b, l);
+    lemma_valid_subrange(b, li.line_offsets@[l] as int, content_end(li, b, l));
+    decode_utf8_encode_utf8(b.subrange(li.line_offsets@[l] as int, content_end(li, b, l)));
+    assert forall|t: Seq<char>| #[trigger] decode_utf8(encode_utf8(t)) == t by { encode_utf8_decode_utf8(t); }
+}
+
+/// an offset on line `l` is not past the content end of `l`; line of an offset is unique and monotone
+pub proof fn lemma_on_line(li: &LineIndex, b: Seq<u8>, off: int, l: int)
+    requires wf(li, b), 0 <= off <= b.len(), on_line(li, b, off, l),
+    ensures li.line_offsets@[l] <= off <= content_end(li, b, l),
+{
+}
+
+pub proof fn lemma_on_line_monotonic(li: &LineIndex, b: Seq<u8>, o1: int, l1: int, o2: int, l2: int)
+    requires wf(li, b), on_line(li, b, o1, l1), on_line(li, b, o2, l2), o1 <= o2,
+    ensures l1 <= l2,
+{
+    if l2 < l1 {
+        let offs = li.line_offsets@;
+        assert(l2 + 1 <= l1);
+        if l2 + 1 < l1 { assert(offs[l2 + 1] < offs[l1]); }
+    }
+}
+
+/// C22, first sentence: converting a char-boundary offset to (line, col) and back returns the same
+/// offset. Proved purely from the two contracts: `get_line_col` may return `(l, c)` only if
+/// `on_line(off, l) && c == col_of(l, off)`; `get_offset(l, c)` may return `o` only if `offset_ok(l, c, o)`.
+pub proof fn lemma_round_trip(li: &LineIndex, b: Seq<u8>, off: int, l: int, c: int, o: int)
+    requires
+        wf(li, b),
+        0 <= off <= b.len(),
+        is_char_boundary(b, off),
+        on_line(li, b, off, l),
+        c == col_of(li, b, l, off),
+        offset_ok(li, b, l, c, o),
+    ensures
+        o == off /*@C22.round-trip*/,
+{
+    let ls = li.line_offsets@[l] as int;
+    lemma_line_facts(li, b, l);
+    lemma_on_line(li, b, off, l);
+    if o < off {
+        lemma_cols_monotonic(b, ls, o, off);
+    } else if off < o {
+        lemma_cols_monotonic(b, ls, off, o);
+    }
+}
+
+// ---------------------------------------------------------------------------------------------
+// LuaDocument-level lemmas (C21 range clause, C25 in-document clause)
+// ---------------------------------------------------------------------------------------------
+pub open spec fn pos_le(a: lsp_types::Position, b: lsp_types::Position) -> bool {
+    a.line < b.line || (a.line == b.line && a.character <= b.character)
+}
+
+/// line numbers never exceed the start offset of the line (each earlier line has at least its `\n`)
+pub proof fn lemma_line_no_le_start(li: &LineIndex, b: Seq<u8>, l: int)
+    requires wf(li, b), 0 <= l < li.line_offsets@.len(),
+    ensures l <= li.line_offsets@[l] <= b.len(),
+    decreases l,
+{
+    assert(is_line_start(b, li.line_offsets@[l] as int));
+    if l > 0 {
+        lemma_line_no_le_start(li, b, l - 1);
+        assert(li.line_offsets@[l - 1] < li.line_offsets@[l]);
+    }
+}
+
+pub proof fn lemma_decode_len_le(s: Seq<u8>)
+    requires valid_utf8(s),
+    ensures decode_utf8(s).len() <= s.len(),
+    decreases s.len(),
+{
+    if s.len() > 0 {
+        lemma_first_scalar_shape(s);
+        lemma_decode_len_le(pop_first_scalar(s));
+    }
+}
+
+/// line and column of an offset fit in the u32 fields of an LSP position (text shorter than 2^32 - 1)
+pub proof fn lemma_position_fits(li: &LineIndex, b: Seq<u8>, off: int, l: int)
+    requires wf(li, b), 0 <= off <= b.len(), is_char_boundary(b, off), on_line(li, b, off, l),
+    ensures l < 0xffff_ffff, col_of(li, b, l, off) < 0xffff_ffff,
+{
+    let ls = li.line_offsets@[l] as int;
+    lemma_line_no_le_start(li, b, l);
+    lemma_line_facts(li, b, l);
+    lemma_valid_subrange(b, ls, off);
+    lemma_decode_len_le(b.subrange(ls, off));
+    lemma_cols_len(decode_utf8(b.subrange(ls, off)));
+}
+
+/// positions are monotone in the offset (lexicographic order on (line, col))
+pub proof fn lemma_line_col_monotonic(li: &LineIndex, b: Seq<u8>, o1: int, l1: int, o2: int, l2: int)
+    requires
+        wf(li, b), 0 <= o1 <= o2 <= b.len(), is_char_boundary(b, o1), is_char_boundary(b, o2),
+        on_line(li, b, o1, l1), on_line(li, b, o2, l2),
+    ensures
+        l1 < l2 || (l1 == l2 && col_of(li, b, l1, o1) <= col_of(li, b, l2, o2)),
+{
+    lemma_on_line_monotonic(li, b, o1, l1, o2, l2);
+    if l1 == l2 {
+        lemma_line_facts(li, b, l1);
+        lemma_cols_monotonic(b, li.line_offsets@[l1] as int, o1, o2);
+    }
+}
+
+/// offsets are monotone in the position: an ordered LSP range converts to an ordered text range
+pub proof fn lemma_offsets_ordered(li: &LineIndex, b: Seq<u8>, l1: int, c1: int, o1: int, l2: int, c2: int, o2: int)
+    requires
+        wf(li, b), 0 <= l1 < li.line_offsets@.len(), 0 <= l2 < li.line_offsets@.len(),
+        offset_ok(li, b, l1, c1, o1), offset_ok(li, b, l2, c2, o2),
+        l1 < l2 || (l1 == l2 && c1 <= c2),
+    ensures
+        o1 <= o2 <= b.len(),
+{
+    lemma_line_facts(li, b, l1);
+    lemma_line_facts(li, b, l2);
+    if l1 < l2 {
+        let offs = li.line_offsets@;
+        if l1 + 1 < l2 { assert(offs[l1 + 1] < offs[l2]); }
+    } else if o2 < o1 {
+        lemma_cols_monotonic(b, li.line_offsets@[l1] as int, o2, o1);
+    }
+}
